@@ -11,6 +11,35 @@ int main(int argc, char** argv) {
     Replay r(argv[1]);
     std::string ob = r.str("obligation");
     int bad = 0;
+    if (r.str("unit") == "dns.convert_records_sources") {
+        // a response built through the API with one record of each of the witness types (W_type[i]; default A then AAAA then TXT),
+        // serialized and parsed: answers() must give back each record's own data
+        struct { uint16_t t; const char* data; } known[] = { {DNS::A, "1.2.3.4"}, {DNS::AAAA, "2001:db8::1"}, {DNS::NS, "ns.example.com"}, {DNS::CNAME, "c.example.com"},
+            {DNS::PTR, "p.example.com"}, {DNS::MX, "mx.example.com"}, {DNS::TXT, "\x05hello"} };
+        static const uint16_t dflt[3] = { DNS::A, DNS::AAAA, DNS::TXT };
+        DNS d; d.type(DNS::RESPONSE);
+        std::vector<std::string> want;
+        for (int i = 0; i < 3; ++i) {
+            char k[24]; snprintf(k, sizeof k, "W_type[%dl]", i);
+            uint16_t t = r.has(k) ? (uint16_t)r.num(k) : dflt[i];
+            const char* data = 0; for (auto& e : known) if (e.t == t) data = e.data;
+            if (!data) { t = dflt[i]; for (auto& e : known) if (e.t == t) data = e.data; }
+            char nm[32]; snprintf(nm, sizeof nm, "r%d.example.com", i);
+            d.add_answer(DNS::resource(nm, data, t, DNS::INTERNET, 60 + i, t == DNS::MX ? 10 : 0));
+            want.push_back(data);
+        }
+        std::vector<uint8_t> y = d.serialize();
+        DNS q(y.data(), (uint32_t)y.size());
+        DNS::resources_type got = q.answers();
+        if (got.size() != want.size()) { printf("DEFECT: %zu records parsed, %zu written\n", got.size(), want.size()); return 1; }
+        size_t i = 0;
+        for (const auto& a : got) {
+            printf("record %zu type %u data \"%s\"\n", i, (unsigned)a.query_type(), a.data().c_str());
+            if (a.data() != want[i]) { printf("DEFECT: record %zu comes back with data \"%s\" instead of \"%s\" (left over from an earlier record)\n", i, a.data().c_str(), want[i].c_str()); ++bad; }
+            ++i;
+        }
+        return bad ? 1 : 0;
+    }
     if (r.str("unit") == "dns.update_records_bounds") {
         // the witness record area (W_b0.., as many octets as the witness names, at most 18) as the authority section of a message
         // with no question: DNS::DNS accepts it (same validator as the unit), then add_answer walks it. Run under ASan.
